@@ -198,6 +198,20 @@ def runSched (env : Env Net Pat IP) (pol : Policy Net Pat) (inp : Inputs) (rs : 
   | [] => w
   | i :: rest => runSched env pol inp rs (step env pol inp rs w i) rest
 
+/-- the code **before the repair**, kept to show that the model can express the defect: a worker whose
+`TrackRegistration` only bumped the counter (another worker's object is stored) went on as if it had
+tracked its own -/
+def stepUnrepaired (env : Env Net Pat IP) (pol : Policy Net Pat) (inp : Inputs) (rs : Resolver IP) (w : World)
+    (i : Nat) : World :=
+  match w.pc i, w.store with
+  | .afterExists false, some _ => { w with pc := updateAt w.pc i .afterTrack }
+  | _, _ => step env pol inp rs w i
+
+def runSchedUnrepaired (env : Env Net Pat IP) (pol : Policy Net Pat) (inp : Inputs) (rs : Resolver IP) (w : World) :
+    List Nat → World
+  | [] => w
+  | i :: rest => runSchedUnrepaired env pol inp rs (stepUnrepaired env pol inp rs w i) rest
+
 /-- before any worker ran: every object holds its client's raw covert string, nothing is tracked -/
 def World.init (raw : Nat → String) (cursor : Nat) : World :=
   { covertOf := raw, pc := fun _ => .start, store := none, cursor := cursor }
